@@ -224,4 +224,89 @@ theorem walkFwd_real_eq_nextK (e : Env) (he : GenSpec e) (hp hn : ℕ → ℕ) (
   rw [walkFwd_patch (realPrimeIter_specTo e he hp hn hhn N hNu hprime) k start _ (fun _ => hN),
     walkFwd_eq _ (PrimeIter.patch_spec (realPrimeIter_specTo e he hp hn hhn N hNu hprime)), if_neg hk, if_neg hk]
 
+/-! ## the backward loop on ONE object -/
+
+theorem findGreatest_facts (u : ℕ) (h : 1 ≤ π u) :
+    Nat.findGreatest Nat.Prime u ≠ 0 ∧ Nat.findGreatest Nat.Prime u ≤ u ∧
+      Nat.findGreatest Nat.Prime u = Nat.nth Nat.Prime (π u - 1) ∧ π (Nat.findGreatest Nat.Prime u - 1) = π u - 1 := by
+  have hu : 2 ≤ u := nthp_one_le_pi_iff.1 h
+  have hr : (Nat.findGreatest Nat.Prime u).Prime := Nat.findGreatest_spec (P := Nat.Prime) hu Nat.prime_two
+  have hle := Nat.findGreatest_le (P := Nat.Prime) u
+  obtain ⟨h1, _⟩ := nthp_prev_eq_nth hle hr (fun m hlt hmu hm => Nat.findGreatest_is_greatest hlt hmu hm)
+  refine ⟨hr.ne_zero, hle, h1, ?_⟩
+  rw [Nat.primeCounting_sub_one]
+  conv_lhs => rw [h1]
+  exact Nat.primeCounting'_nth_eq _
+
+/-- `k` more `prev_prime()` calls of ONE running backward object that has just returned `p` (nth_prime.cpp:123–124; `It.prevK` is
+    the loop with primesieve's `prime == 0` check): ends on the `k`-th prime below `p`, when there are that many -/
+theorem prevK_running (e : Env) (he : GenSpec e) :
+    ∀ k (s : St) (p last : ℕ), BwdAt s p → k ≤ π (p - 1) →
+      prevK e k s last = .ok (if k = 0 then last else Nat.nth Nat.Prime (π (p - 1) - k)) := by
+  intro k
+  induction k with
+  | zero => intro s p last _ _; rfl
+  | succ k ih =>
+    intro s p last h hk
+    obtain ⟨s', h1, h2⟩ := prevPrime_step e he s p h
+    obtain ⟨h0, _, hr, hpi⟩ := findGreatest_facts (p - 1) (by omega)
+    rw [prevK, h1]
+    simp only [if_neg h0]
+    rw [ih s' _ _ h2 (by rw [hpi]; omega), if_neg (Nat.succ_ne_zero k), hpi]
+    by_cases hk0 : k = 0
+    · subst hk0; rw [if_pos rfl, hr]
+    · rw [if_neg hk0]
+      have : π (p - 1) - 1 - k = π (p - 1) - (k + 1) := by omega
+      rw [this]
+
+/-- **the backward loop of nth_prime.cpp on ONE object**: `primesieve::iterator iter(start, hint); for (k times) prime =
+    iter.prev_prime();` ends on the `k`-th prime `≤ start`, for `k ≤ π start` — the same value as the position-indexed `walkBwd`
+    of the C06 model (`walkBwd_eq`) -/
+theorem prevK_init (e : Env) (he : GenSpec e) (k start hint last : ℕ) (hs : start ≤ umax) (hk : k ≤ π start) :
+    prevK e k (init start hint) last = .ok (if k = 0 then last else Nat.nth Nat.Prime (π start - k)) := by
+  cases k with
+  | zero => rfl
+  | succ k =>
+    obtain ⟨s', h1, h2⟩ := prevPrime_init_at e he start hint hs
+    obtain ⟨h0, _, hr, hpi⟩ := findGreatest_facts start (by omega)
+    rw [prevK, h1]
+    simp only [if_neg h0]
+    rw [prevK_running e he k s' _ _ h2 (by rw [hpi]; omega), if_neg (Nat.succ_ne_zero k), hpi]
+    by_cases hk0 : k = 0
+    · subst hk0; rw [if_pos rfl, hr]
+    · rw [if_neg hk0]
+      have : π start - 1 - k = π start - (k + 1) := by omega
+      rw [this]
+
+/-- the backward walk of the C06 model over `realPrimeIter` and the loop over ONE real object return the same prime -/
+theorem walkBwd_real_eq_prevK (e : Env) (he : GenSpec e) (hp hn : ℕ → ℕ) (hhn : ∀ n, hn n ≤ umax) (k start hint last N : ℕ)
+    (hk : k ≠ 0) (hkpi : k ≤ π start) (hsN : start ≤ N) (hNu : N ≤ umax) (hprime : ∃ p, p.Prime ∧ N ≤ p ∧ p ≤ umax) :
+    ∃ v : ℕ, prevK e k (init start hint) last = .ok v ∧ walkBwd (realPrimeIter e hp hn) k start (-1) = (v : ℤ) := by
+  refine ⟨_, prevK_init e he k start hint last (by omega) hkpi, ?_⟩
+  rw [walkBwd_patch (realPrimeIter_specTo e he hp hn hhn N hNu hprime) k start _ hkpi hsN,
+    walkBwd_eq _ (PrimeIter.patch_spec (realPrimeIter_specTo e he hp hn hhn N hNu hprime)) _ _ _ hkpi, if_neg hk, if_neg hk]
+
+/-! ## `nth_prime` over the real iterator -/
+
+theorem p_lt_two63 (hlit : Spec.p Gen.nthPrimeMaxN < 2 ^ 63) (n : ℕ) (h1 : 1 ≤ n) (h2 : n ≤ Gen.nthPrimeMaxN) :
+    Spec.p n < 2 ^ 63 := by
+  rcases Nat.eq_or_lt_of_le h2 with rfl | hlt
+  · exact hlit
+  · exact lt_trans (nthp_p_strictMono h1 hlt) hlit
+
+/-- the environment of `nth_prime` over the real iterator meets the bounded contract up to `2^63 - 1` -/
+theorem correctTo_real (e : Env) (he : GenSpec e) (hp hn : ℕ → ℕ) (hhn : ∀ n, hn n ≤ umax) (env : NthEnv)
+    (hit : env.it = realPrimeIter e hp hn) (hpi : ∀ x, x < 2 ^ 63 → env.pi x = π x)
+    (hpc : ∀ m ≤ Gen.nthPrimeMaxCached, env.piCache m = π m) : env.CorrectTo (2 ^ 63 - 1) :=
+  ⟨hit ▸ (realPrimeIter_specTo_two63 e he hp hn hhn).mono (by omega), fun x hx => hpi x (by omega), hpc⟩
+
+/-- **`nth_prime` over the real iterator model** -/
+theorem nthPrime_real (e : Env) (he : GenSpec e) (hp hn : ℕ → ℕ) (hhn : ∀ n, hn n ≤ umax) (env : NthEnv)
+    (hit : env.it = realPrimeIter e hp hn) (hpi : ∀ x, x < 2 ^ 63 → env.pi x = π x)
+    (hpc : ∀ m ≤ Gen.nthPrimeMaxCached, env.piCache m = π m)
+    (hlit : Spec.p Gen.nthPrimeMaxN < 2 ^ 63) (n : ℕ) (h1 : 1 ≤ n) (h2 : n ≤ Gen.nthPrimeMaxN) (ha : env.approx n < 2 ^ 63) :
+    Pc.nthPrime env (n : ℤ) = .ok ((Spec.p n : ℕ) : ℤ) := by
+  have := p_lt_two63 hlit n h1 h2
+  exact nthPrime_ok_to env (2 ^ 63 - 1) (correctTo_real e he hp hn hhn env hit hpi hpc) n h1 h2 (by omega) (by omega)
+
 end Pc.It
